@@ -11,90 +11,8 @@ verus! {
 //@include prelude/bx.rs
 //@source yui-matrix/src/sparse/schur.rs
 
-/// inverse of a valid (square, unit-diagonal triangular) pivot block — TRUSTED: such a matrix is invertible over any ring
-pub uninterp spec fn tri_ok(t: TriangularType, a: int) -> bool;
-pub uninterp spec fn minv(a: int) -> int;
-#[verifier::external_body] pub proof fn bx_tri_inv(t: TriangularType, a: int) requires tri_ok(t, a)
-    ensures nr(a) == nc(a), nr(minv(a)) == nr(a), nc(minv(a)) == nr(a), mmul(minv(a), a) == mid(nr(a)), mmul(a, minv(a)) == mid(nr(a)) {}
+//@include units/schur/model.inc
 
-#[derive(PartialEq, Eq, Structural, Clone, Copy)]
-pub enum TriangularType { Upper, Lower }
-
-/// the sequence (f(lo), .., f(hi-1)) handed to SpMat::from_entries (model of `(lo..hi).map(f)`)
-pub struct RangeMap<F> { pub lo: usize, pub hi: usize, pub f: F }
-pub fn range_map_<F: Fn(usize) -> (usize, usize, ER)>(lo: usize, hi: usize, f: F) -> (r: RangeMap<F>)
-    ensures r.lo == lo, r.hi == hi, r.f == f { RangeMap { lo, hi, f } }
-/// the listed entries are (ro + i, co + i, 1) for i in 0..hi
-pub open spec fn diag_entries<F: Fn(usize) -> (usize, usize, ER)>(f: F, hi: usize, ro: int, co: int) -> bool {
-    forall|i: usize, o: (usize, usize, ER)| i < hi && f.ensures((i,), o) ==> (o.0 == ro + i && o.1 == co + i && o.2.v() == r1())
-}
-/// the matrix of the given shape with the entries f(0), .., f(hi-1)
-pub uninterp spec fn mfe<F>(nrows: usize, ncols: usize, f: F, hi: usize) -> int;
-/// the matrix with a 1 at (ro + i, co + i) for i in 0..k and zero elsewhere, of the given shape
-pub uninterp spec fn mshift(nrows: int, ncols: int, ro: int, co: int, k: int) -> int;
-/// [0 ; I_k] and [0 | I_k]  (TRUSTED reading of the entry lists)
-#[verifier::external_body] pub proof fn bx_shift(n: int, k: int) requires 0 <= k <= n
-    ensures mshift(n, k, n - k, 0, k) == mstack(mzero(n - k, k), mid(k)), mshift(k, n, 0, n - k, k) == mconcat(mzero(k, n - k), mid(k)) {}
-
-pub struct SpMat { pub m: Ghost<int> }
-pub trait ML: Sized { spec fn mv(&self) -> int; }
-impl ML for SpMat { open spec fn mv(&self) -> int { self.m@ } }
-impl ML for &SpMat { open spec fn mv(&self) -> int { self.m@ } }
-/// Neg for SpMat (ASSUMED to be the entrywise negative; - - a = a, same shape)
-#[verifier::external_body] pub fn qneg_<A: ML>(a: A) -> (r: SpMat) ensures r.m@ == mneg(a.mv()), a.mv() == mneg(r.m@), nr(r.m@) == nr(a.mv()), nc(r.m@) == nc(a.mv()) { unimplemented!() }
-impl SpMat {
-    #[verifier::external_body] pub fn nrows(&self) -> (r: usize) ensures r == nr(self.m@) { unimplemented!() }
-    #[verifier::external_body] pub fn ncols(&self) -> (r: usize) ensures r == nc(self.m@) { unimplemented!() }
-    #[verifier::external_body] pub fn shape(&self) -> (r: (usize, usize)) ensures r.0 == nr(self.m@), r.1 == nc(self.m@) { unimplemented!() }
-    #[verifier::external_body] pub fn id(n: usize) -> (r: SpMat) ensures r.m@ == mid(n as int) { unimplemented!() }
-    /// ASSUMED: the four blocks of self cut at `point` (A: rejects a point outside the matrix)
-    #[verifier::external_body] pub fn divide4(&self, point: (usize, usize)) -> (r: [SpMat; 4])
-//@if B
-        requires point.0 <= nr(self.m@), point.1 <= nc(self.m@),
-//@endif
-        ensures point.0 <= nr(self.m@), point.1 <= nc(self.m@),
-            self.m@ == mstack(mconcat(r@[0].m@, r@[1].m@), mconcat(r@[2].m@, r@[3].m@)),
-            nr(r@[0].m@) == point.0, nc(r@[0].m@) == point.1, nr(r@[1].m@) == point.0, nc(r@[1].m@) == nc(self.m@) - point.1,
-            nr(r@[2].m@) == nr(self.m@) - point.0, nc(r@[2].m@) == point.1, nr(r@[3].m@) == nr(self.m@) - point.0, nc(r@[3].m@) == nc(self.m@) - point.1,
-    { unimplemented!() }
-    /// ASSUMED: the matrix with the listed entries; for the diagonal lists used here that is a shifted identity
-    #[verifier::external_body] pub fn from_entries<F: Fn(usize) -> (usize, usize, ER)>(shape: (usize, usize), entries: RangeMap<F>) -> (r: SpMat)
-        requires forall|i: usize| entries.lo <= i < entries.hi ==> entries.f.requires((i,)),
-        ensures r.m@ == mfe(shape.0, shape.1, entries.f, entries.hi),
-            // (stated with fresh a, b: a tuple projection inside a trigger is not matched by the solver)
-            forall|a: usize, b: usize, ro: int, co: int| #![trigger mshift(a as int, b as int, ro, co, entries.hi as int)]
-                (entries.lo == 0 && diag_entries(entries.f, entries.hi, ro, co)) ==> mfe(a, b, entries.f, entries.hi) == mshift(a as int, b as int, ro, co, entries.hi as int),
-    { unimplemented!() }
-    #[verifier::external_body] pub fn stack(&self, o: &SpMat) -> (r: SpMat) requires nc(self.m@) == nc(o.m@) ensures r.m@ == mstack(self.m@, o.m@) { unimplemented!() }
-    #[verifier::external_body] pub fn extend_cols(&mut self, o: SpMat)
-//@if B
-        requires nr(old(self).m@) == nr(o.m@),
-//@endif
-        ensures nr(old(self).m@) == nr(o.m@), final(self).m@ == mconcat(old(self).m@, o.m@) { unimplemented!() }
-}
-/// ASSUMED (the triangular solver, other half of C12): a x = y
-#[verifier::external_body] pub fn solve_triangular(t: TriangularType, a: &SpMat, y: &SpMat) -> (x: SpMat)
-    requires tri_ok(t, a.m@), nr(a.m@) == nr(y.m@)
-    ensures mmul(a.m@, x.m@) == y.m@, nr(x.m@) == nc(a.m@), nc(x.m@) == nc(y.m@) { unimplemented!() }
-/// x a = y
-#[verifier::external_body] pub fn solve_triangular_left(t: TriangularType, a: &SpMat, y: &SpMat) -> (x: SpMat)
-    requires tri_ok(t, a.m@), nc(a.m@) == nc(y.m@)
-    ensures mmul(x.m@, a.m@) == y.m@, nr(x.m@) == nr(y.m@), nc(x.m@) == nr(a.m@) { unimplemented!() }
-/// `let [a, b, c, d] = e;` moves the four elements out of the array
-#[verifier::external_body] pub fn arr4_<T>(a: [T; 4]) -> (r: (T, T, T, T)) ensures r.0 == a@[0], r.1 == a@[1], r.2 == a@[2], r.3 == a@[3] { unimplemented!() }
-pub struct Trans { pub f: Ghost<int>, pub b: Ghost<int> }
-impl Trans {
-    #[verifier::external_body] pub fn new(f: SpMat, b: SpMat) -> (r: Trans) ensures r.f@ == f.m@, r.b@ == b.m@ { unimplemented!() }
-}
-
-
-/// ft M = [0 | S] and M bs = [0 ; S], with the shapes
-pub open spec fn elim_maps(mm: int, s: int, r: int, ft: int, bs: int) -> bool {
-    let (m, n) = (nr(mm), nc(mm));
-    &&& 0 <= r <= m && r <= n && nr(s) == m - r && nc(s) == n - r
-    &&& nr(ft) == m - r && nc(ft) == m && nr(bs) == n && nc(bs) == n - r
-    &&& mmul(ft, mm) == mconcat(mzero(m - r, r), s) && mmul(mm, bs) == mstack(mzero(r, n - r), s)
-}
 /// the algebra behind Schur::from_partial_triangular
 pub open spec fn schur_setup(t: TriangularType, mm: int, a: int, b: int, c: int, d: int, x: int, s: int, r: int, m: int, n: int) -> bool {
     &&& mm == mstack(mconcat(a, b), mconcat(c, d)) && 0 <= r <= m && r <= n
@@ -152,7 +70,6 @@ pub proof fn lemma_schur_tgt(t: TriangularType, mm: int, a: int, b: int, c: int,
     bx_concat_stack(ny, i, mzero(r, m - r), i); bx_zero_mul(ny, r, m - r); bx_id(i); bx_add_zero(i);
 }
 
-//@item struct/Schur subst=SpMat<R>:SpMat,Option<Trans<R>>:Option<Trans>
 
 impl Schur {
     /// ASSUMED (rayon / cfg_if; column j of the result is d_j - c (a^-1 b)_j): S = D - C X
